@@ -43,6 +43,8 @@ func (e ev) String() string {
 		return fmt.Sprintf("w%d:close", e.w)
 	case 'X':
 		return "cancel"
+	case 'B', 'U':
+		return fmt.Sprintf("w%d:write-datagram-of-%d-bytes", e.w, len(e.data))
 	}
 	return fmt.Sprintf("w%d:write(%q)", e.w, e.data)
 }
@@ -84,6 +86,19 @@ func merges(ss [][]byte) [][]ev {
 				e := ev{w: w, kind: k}
 				if k == 'E' {
 					e.data = "" // a zero-length datagram
+				} else if k == 'B' || k == 'U' {
+					// one large datagram made of 100-byte lines: 100 000 bytes (unixgram; below the 128 KiB read
+					// buffer) or 60 000 bytes (udp; below the 65 507-byte payload limit)
+					n := 1000
+					if k == 'U' {
+						n = 600
+					}
+					var b strings.Builder
+					for i := 0; i < n; i++ {
+						l := fmt.Sprintf("w%dp%dB%04d", w, pos[w], i)
+						b.WriteString(l + strings.Repeat(".", 99-len(l)) + "\n")
+					}
+					e.data = b.String()
 				} else if k != 'C' {
 					e.data = fmt.Sprintf("w%dp%d", w, pos[w])
 					if k == 'L' {
@@ -229,7 +244,7 @@ func runScenario(kind string, nw int, events []ev, settled bool, dir string, seq
 	closedWriters, wrote := 0, false
 	for _, e := range events {
 		switch e.kind {
-		case 'L', 'F', 'E':
+		case 'L', 'F', 'E', 'B', 'U':
 			if _, err := ws[e.w].Write([]byte(e.data)); err != nil {
 				res.err = fmt.Sprintf("%s: %v", e, err)
 			}
@@ -237,6 +252,8 @@ func runScenario(kind string, nw int, events []ev, settled bool, dir string, seq
 			if e.kind == 'L' {
 				wantLines++
 				pendingFrag[e.w] = false
+			} else if e.kind == 'B' || e.kind == 'U' {
+				wantLines += strings.Count(e.data, "\n")
 			} else if e.kind == 'F' {
 				pendingFrag[e.w] = true
 			}
@@ -305,7 +322,7 @@ func runScenario(kind string, nw int, events []ev, settled bool, dir string, seq
 
 func anyWrite(events []ev) bool {
 	for _, e := range events {
-		if e.kind == 'L' || e.kind == 'F' {
+		if e.kind == 'L' || e.kind == 'F' || e.kind == 'B' || e.kind == 'U' {
 			return true
 		}
 	}
@@ -318,6 +335,9 @@ func lowerBoundLines(events []ev, e ev) int {
 	for _, x := range events {
 		if x.kind == 'L' {
 			n++
+		}
+		if x.kind == 'B' || x.kind == 'U' {
+			n += strings.Count(x.data, "\n")
 		}
 		if x == e {
 			break
@@ -487,6 +507,14 @@ func main() {
 					addOrders(k, [][]byte{a, b})
 				}
 			}
+			// datagrams near the size limits
+			big := byte('B')
+			if k == "udp" {
+				big = 'U'
+			}
+			for _, a := range [][]byte{{big, 'C'}, {'L', big, 'L', 'C'}, {big, big, 'C'}} {
+				addOrders(k, [][]byte{a})
+			}
 		}
 		for _, a := range sc {
 			addOrders(k, [][]byte{a})
@@ -651,5 +679,5 @@ func main() {
 		"in burst mode and after an early cancellation only splicing, closure and termination are judged (data written but not yet read when the stream is cancelled may be lost)",
 		"standard input is the same code path as a named pipe (fifoStream on os.Stdin) and is not driven separately",
 	}
-	c.Finish("for each of named pipe, unix and tcp stream sockets, unixgram and udp datagram sockets: 1-2 writers (thorough 3) with every script of <=2 writes over {complete line, unterminated fragment} (datagram sockets also: <=3 writes over {complete line, zero-length datagram}) ending in close, every interleaving of the scripts, cancellation at the end (single writer and thorough: at every position), settled and burst mode, on real kernel objects: per connection / pipe the newline-terminated data arrives as lines in write order, a stream connection's or pipe's tail arrives once at close, no delivered line mixes bytes of two connections or senders, the output ends after writer close (pipe) or cancellation, all goroutines finish; distinct_nontrivial = distinct (stream, mode, event order)")
+	c.Finish("for each of named pipe, unix and tcp stream sockets, unixgram and udp datagram sockets: 1-2 writers (thorough 3) with every script of <=2 writes over {complete line, unterminated fragment} (datagram sockets also: <=3 writes over {complete line, zero-length datagram}) ending in close, plus datagrams of 100 000 bytes (unixgram) / 60 000 bytes (udp) made of 100-byte lines, every interleaving of the scripts, cancellation at the end (single writer and thorough: at every position), settled and burst mode, on real kernel objects: per connection / pipe the newline-terminated data arrives as lines in write order, a stream connection's or pipe's tail arrives once at close, no delivered line mixes bytes of two connections or senders, the output ends after writer close (pipe) or cancellation, all goroutines finish; distinct_nontrivial = distinct (stream, mode, event order)")
 }
